@@ -317,7 +317,7 @@ func c08Builders(c *fw.Case) {
 	}
 	info.AnchorOrigin = origin
 	if r.Chance(1, 3) {
-		info.Type = "t1"
+		info.Type = fw.Pick(r, []string{"t1", "did-entity-type", "schema.org/Organization", "urn:example:iot-device", "type with blanks"})
 	}
 	req, err := client.NewCreateRequest(info)
 	c.Count("builder-requests", 1)
@@ -559,12 +559,17 @@ func clientService(r *fw.Rand, id string) (docdid.Service, map[string]interface{
 		s.Accept = []string{"didcomm/aip2;env=rfc19"}
 		exp["accept"] = []interface{}{"didcomm/aip2;env=rfc19"}
 	}
-	if r.Chance(1, 4) {
-		s.Properties = map[string]interface{}{"extra": "x", "n": 2}
+	if r.Chance(1, 3) {
+		// one properties map handed to several services (a caller's shared template): each service still carries its own members
+		s.Properties = c08SharedProps
 		exp["extra"], exp["n"] = "x", 2
 	}
 	return s, exp
 }
+
+// c08SharedProps is one map instance used as Properties of every service that has custom properties. After each client call it must
+// still hold exactly these two members.
+var c08SharedProps = map[string]interface{}{"extra": "x", "n": 2}
 
 var svcTypesC08 = []string{"LinkedDomains", "DIDCommMessaging", "hub"}
 
@@ -804,6 +809,12 @@ func c08Client(c *fw.Case) {
 	}
 	c.Count("client-requests", 1)
 	if !lc.step(last(), "deactivate", oracle.ValidFacts("deactivate"), op.UniqueSuffix, "sidetree.Client.DeactivateDID") {
+		return
+	}
+	if len(c08SharedProps) != 2 || c08SharedProps["extra"] != "x" || c08SharedProps["n"] != 2 {
+		got := fmt.Sprint(c08SharedProps)
+		c08SharedProps = map[string]interface{}{"extra": "x", "n": 2}
+		c.Failf("caller-properties-map-modified", map[string]interface{}{"properties_now": got}, "the client wrote into the caller's service properties map: %s", got)
 		return
 	}
 	c.Count("lifecycles-completed", 1)
